@@ -502,3 +502,14 @@ def alloc(total):
 
 
 core._EVIEW[:] = [EView, alloc, EBlob, EMsg, join]
+
+
+def buffer_from(pre, blob, post, kind='memoryview'):
+    """a read-only buffer  pre | <opaque payload> | post  built by a harness (its own writer), for decoders"""
+    n = blob.n
+    buf = EBuf(_si(n + (_len(pre) + _len(post))))
+    buf.pre = list(pre)
+    buf.P = _len(pre)
+    buf.blob = blob
+    buf.post = list(post)
+    return EView(buf, 0, buf.total, kind, True)
